@@ -9,8 +9,20 @@ Reading guide
 * `unescapeJsonString`     transcription of helpers.py :: unescape_json_string (fixed: one regex pass)
 * `unescapeSeqOld`         the pinned-tree version (sequential replaces), kept for the witness of F17a
 * `rfcEscapeChar`, `parseStrF`, `parseJson`   the RFC 8259 specification (EPV/Spec/RFC8259.lean)
+* `serializeJson`          transcription of serialization.py :: serialize_to_json (json.dumps with
+                           ensure_ascii, then `.replace('/', '\\/')`) on the JSON value type `JValue`
+* `renderInt`, `reprDouble` `int.__repr__`; `float.__repr__`'s formatting of the shortest digit string
+* `JValue.valid`           every string/key is a sequence of Unicode scalar values (no surrogates), every
+                           double `Dec` is in normal form (`wfDec`: digits 0..9, no leading/trailing zero
+                           digit, or the zero `[0]`,`decpt = 1`) — what CPython's digit generator delivers
+* `jsonToXml`, `xmlToJson` transcriptions of fn:json-to-xml / fn:xml-to-json (default options) on `JValue`
+                           and the element type `Elem` (tag, key attribute, text, children)
+* `JValue.x2jOK`           strings/keys of XML characters, distinct keys in every object, integers below
+                           10^16 in absolute value, doubles in normal form whose repr is not `ddd.0`
+* `pjPairs`, `dedupeFirst` the `duplicates` loop of fn:parse-json and the F&O specification of `use-first`
 -/
-import EPV.Lemmas.JsonEscape
+import EPV.Lemmas.JsonXml
+import EPV.Lemmas.JsonDup
 namespace EPV.C17
 open EPV.Json
 
@@ -44,5 +56,115 @@ theorem escape_eq_spec (s : Str) (h : ∀ c ∈ s, c ≠ 0) :
 RFC 8259 requires `\u0000`. -/
 theorem escape_nul_raw : escapeJsonString [0] = [0] ∧
     rfcEscapeChar (fun _ => false) upperHex 0 = [92, 117, 48, 48, 48, 48] := by decide
+
+/-- the RFC 8259 string reader reads `escape_json_string(s)` back to `s` (strings without U+0000):
+in particular every `"` and `\` of the output belongs to an escape sequence. -/
+theorem escape_decodes (s : Str) (h : ∀ c ∈ s, c ≠ 0) : decodeBody (escapeJsonString s) = some s := by
+  unfold decodeBody
+  rw [escape_flatMap]
+  have := parseStrF_body escChar s (fun c hc => escOK_escChar c (h c hc)) []
+  simp only [List.length_append, List.length_cons, List.length_nil] at this
+  rw [this]
+
+/-- the output of `escape_json_string` contains no raw control character: nothing below U+0020
+and nothing in U+007F..U+009F (strings without U+0000). -/
+theorem escape_ascii_safe (s : Str) (h : ∀ c ∈ s, c ≠ 0) :
+    ∀ c ∈ escapeJsonString s, 32 ≤ c ∧ ¬ (127 ≤ c ∧ c ≤ 159) := by
+  rw [escape_flatMap]
+  intro c hc
+  obtain ⟨x, hx, hcx⟩ := List.mem_flatMap.mp hc
+  have hx0 := h x hx
+  by_cases hs : x = 92 ∨ x = 34 ∨ x = 8 ∨ x = 13 ∨ x = 10 ∨ x = 9 ∨ x = 12 ∨ x = 47
+  · obtain ⟨e, he, hd⟩ := escChar_simple x hs
+    rw [he] at hcx
+    simp only [List.mem_cons, List.mem_nil_iff, or_false] at hcx
+    rcases hcx with rfl | rfl
+    · omega
+    · unfold simpleUnescape? at hd
+      repeat (split at hd; · omega)
+      simp at hd
+  · by_cases hcc : (1 ≤ x ∧ x ≤ 31) ∨ (127 ≤ x ∧ x ≤ 159)
+    · rw [escChar_ctrl x hcc hs] at hcx
+      simp only [hex4U, List.mem_cons, List.mem_nil_iff, or_false] at hcx
+      have hu : ∀ d, 48 ≤ hexDigitU d ∧ (hexDigitU d ≤ 70 ∨ 16 ≤ d) := by
+        intro d; unfold hexDigitU; split <;> omega
+      rcases hcx with rfl | rfl | rfl | rfl | rfl | rfl
+      · omega
+      · omega
+      all_goals (have := hu (x / 4096 % 16); have := hu (x / 256 % 16); have := hu (x / 16 % 16);
+                 have := hu (x % 16); omega)
+    · rw [escChar_raw x hcc hs] at hcx
+      simp only [List.mem_cons, List.mem_nil_iff, or_false] at hcx
+      subst hcx
+      omega
+
+/-- `int.__repr__` is read back exactly by the RFC 8259 number reader: every integer, any size. -/
+theorem json_number_int_exact (n : Int) : parseNum (renderInt n) = some (.int n, []) := by
+  have := parseNum_renderInt n [] trivial
+  simpa using this
+
+/-- `float.__repr__`'s formatting (fixed / exponent notation, sign, `.0`, two-digit exponent) of a
+decimal in normal form is read back to that decimal: all digit strings, all exponents. -/
+theorem json_number_double_exact (d : Dec) (h : wfDec d = true) :
+    parseNum (reprDouble d) = some (.dbl d, []) := by
+  have := (numOK_reprDouble d h).2 [] trivial
+  simpa using this
+
+/-- `serialize_to_json` followed by the RFC 8259 reader is the identity: every JSON value (any
+nesting, any strings of Unicode scalar values, any integers, any doubles in normal form). -/
+theorem serialize_parse_value (v : JValue) (hv : v.valid = true) :
+    parseJson (serializeJson v) = some v := by
+  rw [serializeJson_eq]
+  exact parseJson_render serChar isScalar escOK_serChar wfDec numOK_reprDouble v hv
+
+/-- the hypothesis of `serialize_parse_value` holds on a non-trivial value (test on literals) -/
+example : (JValue.obj [([97, 47], .arr [.null, .int (-12), .dbl ⟨false, [1, 5], 1⟩, .str [128512, 10]])]).valid = true ∧
+    parseJson (serializeJson (.obj [([97, 47], .arr [.null, .int (-12), .dbl ⟨false, [1, 5], 1⟩, .str [128512, 10]])])) =
+      some (.obj [([97, 47], .arr [.null, .int (-12), .dbl ⟨false, [1, 5], 1⟩, .str [128512, 10]])]) :=
+  ⟨by decide, by rfl⟩
+
+/-- validity is needed: a lone high surrogate followed by a low surrogate is written as two escapes
+and read back as one astral character (strings of an XDM value never contain surrogates). -/
+theorem serialize_parse_surrogates :
+    parseJson (serializeJson (.str [0xD83D, 0xDE00])) = some (.str [0x1F600]) := by rfl
+
+/-- F17b (pinned tree, repaired by `fix: JSON serialization of xs:decimal …`): 3.14159 went through
+`quantize(Decimal('0.01'), ROUND_UP)` and came out as 315 hundredths. -/
+theorem decimal_quantize_old_fails :
+    f17bTrigger 314159 5 = true ∧ quantize2UpOld 314159 5 = 315 ∧ 315 * 10 ^ 3 ≠ 314159 := by decide
+
+/-- PARTIAL.  `xml-to-json(json-to-xml(t))` succeeds and is a JSON text that the RFC 8259 reader reads
+back to the value of `t`, for every value in the domain `x2jOK` (any nesting; strings and keys of XML
+characters incl. `"`, `\`, `/`, controls; distinct keys; integers below 10^16; doubles whose repr has
+a fraction or an exponent).
+Full statement (not proved, observed by the correspondence check on every run): for every JSON value
+with XML strings and distinct keys the result denotes the same value *up to the spelling of numbers* —
+an integer of 17 or more digits comes back in exponent notation (`1e+16`, nearest double), a double
+such as `100.0` comes back as `100`.  Outside the hypothesis the model's `float()` step is a trusted
+parameter (shortest-digit generation), so no theorem is stated there. -/
+theorem json_xml_roundtrip_partial (v : JValue) (h : v.x2jOK = true) :
+    ∃ t, (jsonToXml v).bind xmlToJson = .ok t ∧ parseJson t = some v :=
+  ⟨render escChar v, x2j_render v h,
+    parseJson_render escChar isXmlCodepoint escOK_escChar_xml stableDbl numOK_stable v (x2jOK_valid v h)⟩
+
+/-- the hypothesis of `json_xml_roundtrip_partial` holds on a non-trivial value (test on literals):
+`{"a\"/":[null,-12,1.5,1e+21,"\n\\n"],"":{}}` -/
+example : (JValue.obj [([97, 34, 47], .arr [.null, .int (-12), .dbl ⟨false, [1, 5], 1⟩, .dbl ⟨false, [1], 22⟩,
+    .str [10, 92, 110]]), ([], .obj [])]).x2jOK = true := by decide
+
+/-- outside the domain the text changes but (here) not the number: 100.0 is written `100` (test on literals) -/
+example : (jsonToXml (.dbl ⟨false, [1], 3⟩)).bind xmlToJson = .ok [49, 48, 48] := by rfl
+
+/-- duplicate keys are kept by json-to-xml (default `duplicates: retain`) and rejected by xml-to-json
+with FOJS0006, as F&O 17.4/17.5 prescribe (test on literals) -/
+example : (jsonToXml (.obj [([97], .int 1), ([97], .int 2)])).bind xmlToJson = .error .FOJS0006 := by rfl
+
+/-- fn:parse-json, `duplicates: use-first` (the default): the dict-filling loop of the implementation
+computes the specification's "first member with a given key wins", for every list of members
+(keys are compared after the replacement of non-XML characters, which is the identity on XML strings). -/
+theorem parse_json_use_first {α} (m : List (Str × α)) :
+    pjPairs .useFirst [] m = .ok (dedupeFirst [] (fixKeys m)) := by
+  have := pjPairs_useFirst m []
+  simpa using this
 
 end EPV.C17
